@@ -56,10 +56,13 @@ int vnacal_make_vector_parameter(vnacal_t *vcp,
 		"frequency_vector and gamma_vector must be non-NULL");
 	return -1;
     }
-    if (frequency_vector[0] < 0.0) {
-	_vnacal_error(vcp, VNAERR_USAGE, "vnacal_make_vector_parameter: "
-		"frequencies must be nonnegative");
-	return -1;
+    for (int i = 0; i < frequencies; ++i) {
+	if (isnan(frequency_vector[i]) || isinf(frequency_vector[i]) ||
+		frequency_vector[i] < 0.0) {
+	    _vnacal_error(vcp, VNAERR_USAGE, "vnacal_make_vector_parameter: "
+		    "frequencies must be nonnegative");
+	    return -1;
+	}
     }
     for (int i = 1; i < frequencies; ++i) {
 	if (frequency_vector[i - 1] >= frequency_vector[i]) {
